@@ -17,9 +17,9 @@ HEAD = 'TITL c11\nCELL 0.71073 10.1 11.2 12.3 90 90 90\nZERR 4 0.001 0.001 0.001
 TAIL = 'SFAC C H\nUNIT 8 8\nFVAR 1.0\nC1 1 0.1 0.2 0.3 11.0 0.04\nHKLF 4\nEND\n'
 
 
-def read_ops(n, symm_texts):
+def read_ops(n, symm_texts, latt_line=None):
     from shelxfile.shelx.shelx import Shelxfile
-    text = HEAD + 'LATT %d\n' % n + ''.join('SYMM %s\n' % s for s in symm_texts) + TAIL
+    text = HEAD + (latt_line if latt_line is not None else 'LATT %d' % n) + '\n' + ''.join('SYMM %s\n' % s for s in symm_texts) + TAIL
     shx = Shelxfile()
     with contextlib.redirect_stdout(io.StringIO()):
         shx.read_string(text)
@@ -63,15 +63,21 @@ def run(ctx):
         for style in (0, 1, 2):
             cases.append((name, n, ops, [sg.op_text(o, style=style) for o in ops], True))
         cases.append((name + ' (as tabulated)', n, ops, list(symms), True))
+        # the LATT instruction in other spellings: N has the default 1, comments, case, blanks
+        spell = ['latt %d' % n, 'LATT   %d   ! lattice type' % n] + (['LATT', 'LATT ! N[1]', 'latt  '] if n == 1 else [])
+        cases.append((name + ' (LATT spelled differently)', n, ops, list(symms), True, rng.choice(spell)))
+        if n == 1:
+            cases.append((name + ' (LATT without number)', n, ops, list(symms), True, 'LATT'))
     for k in range(4000 if ctx.thorough() else 60):
         n, ops = gen_random_generators(rng)
         cases.append(('random generators', n, ops, [sg.op_text(o, style=rng.randrange(3)) for o in ops], False))
     terms, defs, meta = [], [], []
     hist = {}
-    for ci, (name, n, ops, texts, is_group) in enumerate(cases):
-        text, impl, natoms = read_ops(n, texts)
+    for ci, c in enumerate(cases):
+        name, n, ops, texts, is_group = c[:5]
+        text, impl, natoms = read_ops(n, texts, c[5] if len(c) > 5 else None)
         hist[abs(n)] = hist.get(abs(n), 0) + 1
-        case = {'name': name, 'latt': n, 'symm': texts}
+        case = {'name': name, 'latt': c[5] if len(c) > 5 else n, 'symm': texts}
         exp = sg.expected(n, ops)
         impl_m = [sg.mod1(o) for o in impl]
         exp_m = [sg.mod1(o) for o in exp]
